@@ -70,6 +70,7 @@ Qed.
 (* insert / overwrite / delete at an lsb0 position *)
 Theorem ba_insert_lsb0 (b bs : bits) pos : ba_insert true b bs pos = res_map (@rev bool) (ba_insert false (rev b) (rev bs) pos).
 Proof.
-  unfold ba_insert. rewrite !zlen_rev. destruct (zlen bs =? 0); [cbn; now rewrite rev_involutive|].
-  set (p := if pos <? 0 then pos + zlen b else pos). destruct ((0 <=? p) && (p <=? zlen b)); [|reflexivity]. apply insert_mirror.
+  unfold ba_insert. rewrite !zlen_rev.
+  set (p := if pos <? 0 then pos + zlen b else pos). destruct ((0 <=? p) && (p <=? zlen b)); [|reflexivity].
+  destruct (zlen bs =? 0); [cbn [res_map]; now rewrite rev_involutive|]. apply insert_mirror.
 Qed.
